@@ -70,6 +70,17 @@ func checkC01(w *World, r *Result) {
 		declIDRule(w, r, rel)
 		genIDRule(w, r, rel)
 	}
+	// the assembly keeps one declaration per ID (rule shared with C19): two declarations of one ID written twice are a
+	// redeclaration in the generated file
+	{
+		sub := &Result{Prop: "C19"}
+		checkC19(w, sub)
+		for _, o := range sub.Obs {
+			if o.Rule == "PTH-C19a" {
+				r.add(o)
+			}
+		}
+	}
 	genIDAccumulation(w, r)
 	n := stubTypeCheck(w, r)
 	r.note("stub_typechecked_instantiations", n)
